@@ -5,6 +5,10 @@ import gen
 
 # Lean theorems that decide each property (audited with #print axioms on every run)
 THEOREMS = {
+    "C03": ["Cntgs.C03.objects_aligned", "Cntgs.C03.storage_alignment_suffices", "Cntgs.C03.next_element_start_aligned",
+            "Cntgs.C03.relocation_keeps_layout"],
+    "C04": ["Cntgs.C04.fields_ordered", "Cntgs.C04.span_sizes", "Cntgs.C04.element_extent", "Cntgs.C04.first_field_at_element_start"],
+    "C05": ["Cntgs.C05.fields_greedy", "Cntgs.C05.alignUp_is_lowest", "Cntgs.C05.elements_greedy", "Cntgs.C05.units_tight"],
 }
 
 # violation tags raised by the harness monitors that count for a property
